@@ -482,6 +482,17 @@ fn gen_c17(tier: &str, r: &Rng, o: &mut Out<'_>) {
             o.d(&format!("desc {}", hex(&d)));
         }
     }
+    // CoreDescriptors::from_bytes called directly: empty / one byte / length byte beyond, at and
+    // inside the buffer, every tag
+    o.d("descfb -");
+    for tag in 0..256usize {
+        o.d(&format!("descfb {}", hex(&[tag as u8])));
+        for &(len, have) in [(0usize, 0usize), (1, 0), (1, 1), (3, 2), (3, 3), (4, 4), (4, 6), (255, 10)].iter() {
+            let mut d = vec![tag as u8, len as u8];
+            d.extend(r.bytes(have));
+            o.d(&format!("descfb {}", hex(&d)));
+        }
+    }
     // typed descriptors: every length 0..=255
     for &tag in [5u8, 10, 14, 40].iter() {
         for len in 0..256usize {
